@@ -260,6 +260,15 @@ def _ownership(chk: Check, lt: ClassInfo) -> None:
 
 
 def _capture(chk: Check, lt: ClassInfo) -> None:
+    # a copy (copy / deepcopy / pickle) of a lazy tree takes the built tree and the pending queue
+    # together or not at all: the default protocols copy the whole state; a hand-written hook that
+    # selects part of it makes the copy's answers depend on whether the original had been queried
+    hooks = [h for h in ("__getstate__", "__setstate__", "__reduce__", "__reduce_ex__", "__copy__", "__deepcopy__",
+                         "__getnewargs__", "__getnewargs_ex__") if h in lt.methods]
+    chk.ob("R12.3", "LazyIntervalTree:no-partial-copy-hooks", not hooks,
+           lt.methods[hooks[0]].loc() if hooks else lt.loc(),
+           "LazyIntervalTree defines %s: copies must carry the tree and the queue of pending updates together"
+           % ", ".join(hooks), 1)
     kinds = {"add": "ADDED", "discard": "DISCARDED"}
     for nm, kind in kinds.items():
         f = lt.methods.get(nm)
@@ -308,6 +317,26 @@ def _capture(chk: Check, lt: ClassInfo) -> None:
                 chk.ob("R12.3", "LazyIntervalTree.%s:always-queues" % nm, wit is None, f.loc(),
                        "a path through %s does not queue the event for a value that has an interval" % nm, 2)
         chk.ob("R12.3", "LazyIntervalTree.%s:captures-interval-now" % nm, ok, f.loc(), why, 3)
+        # the notification runs while the owner is in the middle of an edit (before the element has
+        # joined / after it has left the collection, before the attribute has its new value): all
+        # it may do is compute the interval and queue it — no rebuild, no replay, no look at the
+        # collection or the tree
+        extra = []
+        for c in walk_no_nested(f.node):
+            if isinstance(c, ast.Call):
+                pth = attr_path(c.func)
+                if pth in ((f.self_name, "_interval_events", "append"), (f.self_name, "_make_interval")):
+                    continue
+                if isinstance(c.func, ast.Name) and c.func.id in ("len", "isinstance"):
+                    continue
+                extra.append(c)
+            elif isinstance(c, ast.Attribute) and attr_path(c) and attr_path(c)[0] == f.self_name and \
+                    c.attr in ("_interval_index", "_value_collection"):
+                extra.append(c)
+        chk.ob("R12.3", "LazyIntervalTree.%s:only-queues" % nm, not extra, f.loc(extra[0]) if extra else f.loc(),
+               "LazyIntervalTree.%s does more than queue the event (%s): it is called in the middle of the "
+               "owner's edit, when the collection and the attributes do not yet agree"
+               % (nm, unparse(extra[0])[:50] if extra else "-"), 2)
     et = chk.repo.cls("_EventType")
     vals = [unparse(v) for k, v in et.class_assigns.items() if k in ("ADDED", "DISCARDED")]
     distinct = len(vals) == 2 and (vals[0] != vals[1] or "auto" in vals[0])
